@@ -10,7 +10,7 @@ from ..lang import CMP_OPS
 PROPERTY = "C09"
 LEVEL = "exploration"
 TIMEOUT = 600
-BUDGET = {"quick": 200, "thorough": 2000}
+BUDGET = {"quick": 600, "thorough": 3600}
 RULE = ("Programs placing 1-1000+ entities at compile-time constant coordinates (literals, int variables, loop "
         "iterators, arithmetic on them, negative coordinates, 1x1 / 2x2 / 3x3 / 1x2 prototypes, static property "
         "dictionaries, wired and unwired, inside functions incl. entity-returning ones and nested loops; one "
